@@ -433,3 +433,18 @@ M("c14-xy-recorded-raw", "C14", DEP, "        self.x = np.asarray(x)\n        se
 M("c14-xy-raw-to-fit", "C14", DEP, "            self._fit(self.x, self.y)", "            self._fit(x, y)", rules=["C14.protocol"])
 M("c14-twin-xy-float", "C14", DEP, "        self.x = np.asarray(x)\n        self.y = np.asarray(y)\n", "        self.x = np.asarray(x, dtype=float)\n        self.y = np.asarray(y, dtype=float)\n", expect="pass")
 M("c14-twin-xy-converted-first", "C14", DEP, "        self.x = np.asarray(x)\n        self.y = np.asarray(y)\n", "        x = np.asarray(x)\n        y = np.asarray(y)\n        self.x = x\n        self.y = y\n", expect="pass")
+M("c09-method-none-forwarded", "C09", D, "            if method is None:\n                # the distribution's own default method\n                dist.fit(interval_data, weights=weights)\n            else:\n                dist.fit(interval_data, method, weights)\n", "            dist.fit(interval_data, method, weights)\n", rules=["C09.nonedefault"], what="original defect (ConditionalDistribution.fit default method crashes)")
+M("c09-method-none-weights-dropped", "C09", D, "                dist.fit(interval_data, weights=weights)\n", "                dist.fit(interval_data)\n", rules=["C09.intervals"])
+M("c09-twin-method-none-inverted", "C09", D, "            if method is None:\n                # the distribution's own default method\n                dist.fit(interval_data, weights=weights)\n            else:\n                dist.fit(interval_data, method, weights)\n", "            if method is not None:\n                dist.fit(interval_data, method, weights)\n            else:\n                dist.fit(interval_data, weights=weights)\n", expect="pass")
+M("c09-fill-in-place", "C09", J, "                    filled_descriptions.append({\"weights\": None, **fit_descriptions[i]})\n", "                    if \"weights\" not in fit_descriptions[i]:\n                        fit_descriptions[i][\"weights\"] = None\n                    filled_descriptions.append(fit_descriptions[i])\n", rules=["C09.defaults"], what="the caller's dict is changed")
+M("c09-fill-weights-wins", "C09", J, "                    filled_descriptions.append({\"weights\": None, **fit_descriptions[i]})\n", "                    filled_descriptions.append({**fit_descriptions[i], \"weights\": None})\n", rules=["C09.defaults"], what="the caller's weights are overwritten by None")
+M("c09-twin-fill-get", "C09", J, "                    filled_descriptions.append({\"weights\": None, **fit_descriptions[i]})\n", "                    filled_descriptions.append({**fit_descriptions[i], \"weights\": fit_descriptions[i].get(\"weights\")})\n", expect="pass")
+M("c16-sample-unseeded", ["C16", "C19"], J, "            self._sample = self.draw_sample(int(1e6), random_state=self.random_state)\n", "            self._sample = self.draw_sample(int(1e6))\n", rules={"C16": ["C16.rng"], "C19": ["C19.seed"]}, what="original defect (third audit C19#1)")
+M("c20-label-template", "C20", PL, "lambda match: \"{\" + var_symbol + \"}\", dep_func_label", "\"{\" + var_symbol + \"}\", dep_func_label", rules=["C20.others"], what="original defect (third audit C20#1)")
+M("c20-label-escape", "C20", PL, "lambda match: \"{\" + var_symbol + \"}\", dep_func_label", "re.escape(\"{\" + var_symbol + \"}\"), dep_func_label", rules=["C20.others"], what="re.escape is for patterns")
+M("c20-header-lines", "C20", C, "    header = \" \".join(header.splitlines())  # one header line, whatever the names\n", "", rules=["C20.save"], what="original defect (third audit C20#2)")
+M("c20-twin-header-flat-inline", "C20", C, "    header = \" \".join(header.splitlines())  # one header line, whatever the names\n\n    np.savetxt(\n        file_path,\n        contour.coordinates,\n        fmt=\"%1.6f\",\n        delimiter=\";\",\n        header=header,", "\n    np.savetxt(\n        file_path,\n        contour.coordinates,\n        fmt=\"%1.6f\",\n        delimiter=\";\",\n        header=\" \".join(header.splitlines()),", expect="pass")
+M("c15-sorter-raw-index", "C15", U, "    x = np.asarray(x)\n    y = np.asarray(y)\n    points = np.c_[x, y]\n", "    points = np.c_[x, y]\n", rules=["C15.perm"], what="original defect (third audit C15#1)")
+M("c15-twin-sorter-array", "C15", U, "    x = np.asarray(x)\n    y = np.asarray(y)\n    points = np.c_[x, y]\n", "    x, y = np.array(x), np.array(y)\n    points = np.c_[x, y]\n", expect="pass")
+M("c13-integer-data", "C13", D, "        data = np.asarray_chkfinite(data, dtype=float)\n        x = np.sort(data)", "        data = np.asarray_chkfinite(data)\n        x = np.sort(data)", rules=["C13.formula"], what="original defect (third audit C13#2)")
+M("c13-twin-float64", "C13", D, "        data = np.asarray_chkfinite(data, dtype=float)\n        x = np.sort(data)", "        data = np.asarray_chkfinite(data, dtype=np.float64)\n        x = np.sort(data)", expect="pass")
